@@ -120,12 +120,11 @@ theorem phaseNT_verbatim (c : NTCfg) (code : List (List Byte × Byte)) (orf pre 
   -- what the selected hit is turned into
   have hfinal : ∀ b : NTBest, b.hit = some ⟨false, 0, pre.length, pre.length + orf.length - 1⟩ →
       ∃ p, (match b.hit with
-        | none => NTOut.panic
+        | none => NTOut.removed (noHit (pre ++ orf ++ post))
         | some h =>
           let tmp := strandOf (pre ++ orf ++ post) h
           let bestend := if c.cutend then h.seqend + 1 else tmp.length
-          let ph := (3 - h.frame % 3) % 3
-          if h.seqstart > bestend || h.seqstart + ph > bestend then NTOut.panic
+          if h.seqstart > bestend then NTOut.panic
           else NTOut.ok (assembleNT code tmp h c.cutend) h)
         = NTOut.ok p ⟨false, 0, pre.length, pre.length + orf.length - 1⟩ ∧
       p.position = pre.length ∧ p.nt = (if c.cutend then orf else orf ++ post) ∧ p.codon = p.nt := by
